@@ -10,6 +10,7 @@ mod p_expect;
 mod p_rules;
 mod p_docs;
 mod p_md;
+mod p_gen;
 
 use std::io::{BufWriter, Write};
 
@@ -32,6 +33,7 @@ fn main() {
         "expect" => p_expect::main(&args[1..], &mut w),
         "rules" => p_rules::main(&args[1..], &mut w),
         "docs" => p_docs::main(&args[1..], &mut w),
+        "gen" => p_gen::main(&args[1..], &mut w),
         "consts" => p_consts::main(&args[1..], &mut w),
         x => { eprintln!("unknown subcommand {}", x); std::process::exit(2); }
     }
